@@ -4,6 +4,10 @@ for f in sys.argv[1:]:
     d=json.load(open(f))
     print('====',f.split('/')[-1],d['signature'],'| ops',d.get('ops_before'),'->',d.get('ops_after'),'runs',d.get('minimiser_runs'))
     print('    ',d['violation']['detail'][:300])
-    for k,v in d['plan'].items():
-        if k!='ops': print('    ',k,'=',json.dumps(v)[:200])
-    for o in d['plan']['ops']: print('      ',json.dumps(o)[:400])
+    p=d.get('plan',{})
+    print('     '+' '.join('%s=%s'%(k,json.dumps(v)) for k,v in p.items() if k not in('ops','engine','index','seed','cseed','enum')))
+    for o in p.get('ops',[]): print('      ',json.dumps(o)[:400])
+    for l in d.get('stack',[])[:5]:
+        import re
+        m=re.match(r'\s*#(\d+) 0x[0-9a-f]+ in (.*?) (/\S+:\d+)',l)
+        if m: print('        #%s %s  %s'%(m.group(1), m.group(2)[:90], m.group(3).replace('/repo/include/boost/gil/','')))
